@@ -27,10 +27,21 @@ EXPLANATION = ("Theorems (Lean): the parameter count equals the sum over maximal
 ASSUMPTIONS = ["np.linalg.slogdet / np.log accurate to rounding", "threshold 2e-5 re-extracted from the source AST on every run"]
 
 
-def fake_model(labels, thetas, covs):
-    clusters = [types.SimpleNamespace(train_inverse=t, empirical_covariance=s) for t, s in zip(thetas, covs)]
-    return types.SimpleNamespace(arguments=types.SimpleNamespace(num_clusters=len(thetas)),
-                                 clusters=clusters, point_labels=list(labels))
+def fake_model(labels, thetas, covs, eps=0):
+    """a real ModelState (real argument bundle and cluster containers) carrying the given MRFs / covariances."""
+    from fast_ticc.containers import arguments, model_state
+    n = thetas[0].shape[0]
+    args = arguments.UserArguments(sparsity_weight=0.11, iteration_limit=5, label_switching_cost=1.0, min_cluster_size=2,
+                                   min_meaningful_covariance=eps, num_clusters=len(thetas), num_processors=1,
+                                   window_size=1, biased_covariance=False)
+    st = model_state.ModelState.empty_model(args, np.zeros((len(labels), n)))
+    st.point_labels = list(labels)
+    for c, t, s in zip(st.clusters, thetas, covs):
+        c.train_inverse, c.empirical_covariance = t, s
+        c.inverse_covariance, c.computed_covariance = t, np.linalg.inv(t)
+        c.stacked_data_mean = np.zeros(n)
+        c.log_determinant = float(np.linalg.slogdet(t)[1])
+    return st
 
 
 def indep_bic(labels, thetas, covs, P):
@@ -120,7 +131,8 @@ def run(ctx):
             if l != prev:
                 P_ind += int(sum(1 for row in c["thetas"][l] for x in row if abs(Fraction(x)) > Fraction(1, 50000)))
             prev = l
-        got = float(cmx.bayesian_information_criterion(fake_model(c["labels"], thetas, covs)))
+        eps_c = [0, 1e-6, 1e-5, 1e-3][c["cov_seed"] % 4]      # the covariance floor must not move the 2e-5 counting threshold
+        got = float(cmx.bayesian_information_criterion(fake_model(c["labels"], thetas, covs, eps_c)))
         want = indep_bic(c["labels"], thetas, covs, P_ind)
         if not oracles.rel_close(got, want, 1e-9, 1e-9):
             ctx.violation("impl-violation", f"BIC {got} != definition {want} (P={P_ind})", c, {"site": "bic-value"})
